@@ -316,6 +316,12 @@ def rulesetViol (env : Env) (r : IRRuleset) (i : Json) : List String :=
   (if r.name.isEmpty then ["unnamed-ruleset-accepted"] else []) ++
   (if jstr i "name" == String.ofList r.name then [] else ["ruleset-order"]) ++
   (if Spec.delayValid r.postActionDelay && Spec.delayValid r.prekillHookTimeout then [] else ["invalid-delay-accepted"]) ++
+  -- silence-logs: exactly the listed sources are silenced, however often one is named (read off the field itself, not via
+  -- the model's `silenceMask`)
+  (let names := (OomdModel.Path.split (trim r.silenceLogs) ',').map trim
+   let want := (if names.contains "engine".toList then 2 ^ logSourceEngine else 0) + (if names.contains "plugins".toList then 2 ^ logSourcePlugins else 0)
+   if names.all (fun n => n == "engine".toList || n == "plugins".toList || n.isEmpty) && !r.silenceLogs.isEmpty && jnat i "silenced_logs" != want
+   then ["silence-not-honoured"] else []) ++
   (match Spec.inRange 0 (2 ^ 31) (Spec.intNumeral? r.postActionDelay) with
    | some v => if jstr i "post_action_delay" == toString v then [] else ["delay-not-honoured"]
    | none => []) ++
